@@ -41,3 +41,11 @@ Definition chk_urlencode (x : list (pystr * pystr) * option pystr) : bool :=
   option_eqb str_eqb (urlencode (fst x)) (snd x).
 Definition chk_parse_qsl (x : pystr * res (list (pystr * pystr))) : bool :=
   res_eqb (list_eqb pair_eqb) (parse_qsl (fst x)) (snd x).
+
+(* class-specific verify(): (rule set, class, now, kwargs, message) vs (what verify() returned, message afterwards) *)
+From Verif Require Import Model.MsgRules.
+Definition rules_case := (pystr * pystr * Z * msg * msg)%type.
+Definition m_rules (x : rules_case) : res (bool * msg) :=
+  let '(rule, n, now, kw, m) := x in with_class n (fun c => class_rules rule c now kw m).
+Definition bm_eqb (a b : bool * msg) : bool := Bool.eqb (fst a) (fst b) && msg_eqb (snd a) (snd b).
+Definition chk_rules (x : rules_case * res (bool * msg)) : bool := res_eqb bm_eqb (m_rules (fst x)) (snd x).
